@@ -249,6 +249,11 @@ type childResult struct {
 
 // runChild runs the store child under strace. injSys == "" means no injection.
 func runChild(job childJob, work string, injSys string, injWhen int) childResult {
+	return runChildInj(job, work, injSys, injWhen)
+}
+
+// runChildInj is runChild with further strace inject expressions (e.g. "renameat:error=ENOENT:when=3").
+func runChildInj(job childJob, work string, injSys string, injWhen int, more ...string) childResult {
 	if err := straceCheck(); err != nil {
 		infra("strace unavailable: %v", err)
 	}
@@ -260,6 +265,9 @@ func runChild(job childJob, work string, injSys string, injWhen int) childResult
 	args := []string{"-f", "-o", logPath, "-e", "signal=none", "-e", "trace=" + traceSet}
 	if injSys != "" {
 		args = append(args, "-e", fmt.Sprintf("inject=%s:signal=KILL:when=%d", injSys, injWhen))
+	}
+	for _, m := range more {
+		args = append(args, "-e", "inject="+m)
 	}
 	args = append(args, "--", os.Args[0])
 	jb, _ := json.Marshal(job)
